@@ -3,12 +3,15 @@
 
    [validate rootc g] (Analysis.v) mirrors BuildNodeMapFromPackages, BuildGraph and
    CheckTargetConstraints; [defect_free rootc g] is the declarative reading of the property.
-   The unguarded equivalence is FALSE of the faithful model (four [_refuted] witnesses below, each
-   reproduced on the real code by tools/c11.py, known findings C11-F1..F4); the strongest true
-   statement is [C11_sound_complete_partial].  The clause-wise theorems carry only the guards
-   they need; cycle detection, ordering by ancestor sets, duplicate / missing labels, input
-   paths, file output paths, tests-have-commands and the test/testonly rules are UNGUARDED
-   (beyond a well-formed node map).
+   The unguarded equivalence is FALSE of the faithful model (two [_refuted] witnesses below, each
+   reproduced on the real code by tools/c11.py, known findings C11-F2 and C11-F3; C11-F1 -- dir
+   outputs not checked against the workspace boundary -- and C11-F4 -- a dir output that is the
+   workspace root overlaps nothing -- are repaired in the code this model mirrors, their former
+   witnesses are now [C11_dir_output_escape_rejected] / [C11_root_dir_overlap_rejected]); the
+   strongest true statement is [C11_sound_complete_partial].  The clause-wise theorems carry only
+   the guards they need; cycle detection, ordering by ancestor sets, duplicate / missing labels,
+   input paths, output paths (file AND directory), tests-have-commands and the test/testonly
+   rules are UNGUARDED (beyond a well-formed node map).
 
    Cycle detection: the faithful proof went through (three-colour DFS with depth fuel vs
    [exists n, reach g n n], any graph size, no bounded sweep; out-of-fuel is impossible). *)
@@ -70,8 +73,8 @@ Proof. exact conflict_exact. Qed.
 Print Assumptions C11_conflict_exact.
 
 (* against the declarative clause (two DISTINCT targets, overlap of the places the outputs
-   denote), under G2 (outputs stay below the root when read from it) and G3 (no target overlaps
-   itself) *)
+   denote), under G2 (no output spelling climbs above the root when read from it; an output that
+   IS the root is covered) and G3 (no target overlaps itself) *)
 Theorem C11_conflict_iff_partial : forall rootc g,
   NoDup (labels g) -> no_dangling g -> Forall plain_comp rootc ->
   rel_pkgs g -> rel_outputs g -> plain_outputs g -> no_self_overlap rootc g ->
@@ -104,29 +107,35 @@ Theorem C11_path_within_iff : forall a d,
 Proof. exact path_within_comps. Qed.
 Print Assumptions C11_path_within_iff.
 
-(* cleanOutputPath = the elements of the walk, when the walk stays below the root *)
-Theorem C11_clean_output_path : forall pkg id c cs,
-  resolve_from [] (split_slash pkg ++ split_slash id) = Some (c :: cs) ->
+(* the same with the workspace root, which Clean writes ".", on either side *)
+Theorem C11_path_within_root_iff : forall a d, Forall plain a -> Forall plain d ->
+  (path_within (render_rel a) (render_rel d) = true <-> exists r, a = d ++ r).
+Proof. exact path_within_rel. Qed.
+Print Assumptions C11_path_within_root_iff.
+
+(* cleanOutputPath = the elements of the walk ("." for none), when the walk never climbs above the root *)
+Theorem C11_clean_output_path : forall pkg id r,
+  resolve_from [] (split_slash pkg ++ split_slash id) = Some r ->
   is_abs pkg = false -> (pkg = [] -> is_abs id = false) ->
-  clean_output_path pkg id = join slash (c :: cs).
-Proof. exact clean_output_path_plain. Qed.
+  clean_output_path pkg id = render_rel r.
+Proof. exact clean_output_path_rel. Qed.
 Print Assumptions C11_clean_output_path.
 
 Theorem C11_inputs_iff : forall g, has_bad_input g = false <-> inputs_ok g.
 Proof. exact inputs_iff. Qed.
 Print Assumptions C11_inputs_iff.
 
-(* what the code checks about outputs: inputs + FILE outputs, unguarded *)
-Theorem C11_paths_files_iff : forall rootc g, Forall plain_comp rootc ->
-  (has_bad_input g = false /\ has_bad_output rootc g = false <-> inputs_ok g /\ file_outputs_ok rootc g).
-Proof. exact paths_files_iff. Qed.
-Print Assumptions C11_paths_files_iff.
+(* against the declarative clause (EVERY path output, file or directory, relative and inside the
+   workspace), unguarded *)
+Theorem C11_outputs_iff : forall rootc g, Forall plain_comp rootc ->
+  (has_bad_output rootc g = false <-> outputs_ok rootc g).
+Proof. exact outputs_iff. Qed.
+Print Assumptions C11_outputs_iff.
 
-(* against the declarative clause (EVERY path output inside the workspace): only under G1 *)
-Theorem C11_paths_iff_partial : forall rootc g, Forall plain_comp rootc -> dir_outputs_checked rootc g ->
+Theorem C11_paths_iff : forall rootc g, Forall plain_comp rootc ->
   (has_bad_input g = false /\ has_bad_output rootc g = false <-> inputs_ok g /\ outputs_ok rootc g).
-Proof. exact paths_iff_partial. Qed.
-Print Assumptions C11_paths_iff_partial.
+Proof. exact paths_iff. Qed.
+Print Assumptions C11_paths_iff.
 
 (* ---- grog's extra rule *)
 Theorem C11_tests_have_commands_iff : forall g, has_test_nocmd g = false <-> tests_have_commands g.
@@ -144,13 +153,22 @@ Theorem C11_deprules_iff : forall g, NoDup (labels g) -> acyclic g ->
 Proof. exact deprules_iff. Qed.
 Print Assumptions C11_deprules_iff.
 
-(* ---- the whole property, guarded *)
+(* ---- the whole property, guarded (G2: no output spelling climbs above the workspace root;
+   G3: no target declares two overlapping outputs of its own) *)
 Theorem C11_sound_complete_partial : forall rootc g,
   clean_root rootc -> rel_pkgs g ->
-  dir_outputs_checked rootc g -> plain_outputs g -> no_self_overlap rootc g ->
+  plain_outputs g -> no_self_overlap rootc g ->
   (validate rootc g = Accept <-> defect_free rootc g).
 Proof. exact sound_complete_partial. Qed.
 Print Assumptions C11_sound_complete_partial.
+
+(* the guards are met by an accepted graph with a directory and two file outputs *)
+Theorem C11_sound_complete_partial_nonvacuous :
+  clean_root Witness.root /\ rel_pkgs Witness.g_ok /\ plain_outputs Witness.g_ok /\
+  no_self_overlap Witness.root Witness.g_ok /\
+  validate Witness.root Witness.g_ok = Accept /\ defect_free Witness.root Witness.g_ok.
+Proof. exact Witness.sound_complete_partial_nonvacuous. Qed.
+Print Assumptions C11_sound_complete_partial_nonvacuous.
 
 (* ---- and why the guards are needed: the unguarded equivalence fails in both directions *)
 Theorem C11_sound_complete_refuted :
@@ -158,12 +176,6 @@ Theorem C11_sound_complete_refuted :
   (exists rootc g, clean_root rootc /\ rel_pkgs g /\ defect_free rootc g /\ validate rootc g <> Accept).
 Proof. exact Witness.sound_complete_refuted. Qed.
 Print Assumptions C11_sound_complete_refuted.
-
-(* F1 (guard G1): a directory output outside the workspace is accepted: dir::../../outside *)
-Theorem C11_dir_output_escape_refuted :
-  exists rootc g, clean_root rootc /\ rel_pkgs g /\ validate rootc g = Accept /\ ~ outputs_ok rootc g.
-Proof. exact Witness.dir_escape_refuted. Qed.
-Print Assumptions C11_dir_output_escape_refuted.
 
 (* F2 (guard G3): one target with dir::dist and bin_output dist/app has no listed defect and is rejected *)
 Theorem C11_same_target_overlap_refuted :
@@ -174,20 +186,27 @@ Print Assumptions C11_same_target_overlap_refuted.
 (* F3 (guard G2): two unordered writers of one file, one spelled ../../ws/p1/a, are accepted;
    every output is a file output inside the workspace *)
 Theorem C11_reentrant_overlap_refuted :
-  exists rootc g, clean_root rootc /\ validate rootc g = Accept /\
+  exists rootc g, clean_root rootc /\ rel_pkgs g /\ validate rootc g = Accept /\
     outputs_ok rootc g /\
     (forall t o, In (NTarget t) g -> In o (all_outputs t) -> o_type o = OFile) /\
     ~ no_conflict rootc g.
 Proof. exact Witness.reentrant_refuted. Qed.
 Print Assumptions C11_reentrant_overlap_refuted.
 
-(* F4 (guard G2): a directory output that IS the workspace root overlaps nothing for pathWithin;
-   every output is inside the workspace and never spelled through a directory above the root *)
-Theorem C11_root_dir_overlap_refuted :
-  exists rootc g, clean_root rootc /\ validate rootc g = Accept /\
-    outputs_ok rootc g /\
-    (forall t o, In (NTarget t) g -> In o (all_outputs t) ->
-       resolve_from [] (split_slash (lpkg (t_label t)) ++ split_slash (o_id o)) <> None) /\
-    ~ no_conflict rootc g.
-Proof. exact Witness.root_dir_refuted. Qed.
-Print Assumptions C11_root_dir_overlap_refuted.
+(* former F1, repaired: dir::../../outside lies outside the workspace and is rejected for it *)
+Theorem C11_dir_output_escape_rejected :
+  validate Witness.root Witness.g_dir_escape = Reject [OutputPath] /\
+  ~ outputs_ok Witness.root Witness.g_dir_escape.
+Proof. exact Witness.dir_escape_rejected. Qed.
+Print Assumptions C11_dir_output_escape_rejected.
+
+(* former F4, repaired: a directory output that IS the workspace root (dir::.. from p1) next to an
+   unordered writer of p1/a meets every guard of C11_sound_complete_partial, has a conflict, and is
+   rejected for it *)
+Theorem C11_root_dir_overlap_rejected :
+  clean_root Witness.root /\ rel_pkgs Witness.g_root_dir /\ plain_outputs Witness.g_root_dir /\
+  no_self_overlap Witness.root Witness.g_root_dir /\
+  outputs_ok Witness.root Witness.g_root_dir /\ ~ no_conflict Witness.root Witness.g_root_dir /\
+  validate Witness.root Witness.g_root_dir = Reject [Conflict].
+Proof. exact Witness.root_dir_rejected. Qed.
+Print Assumptions C11_root_dir_overlap_rejected.
